@@ -343,60 +343,153 @@ def bound_arithmetic_rule(ctx, prog):
 
 
 def conservative_seek_rule(ctx, prog):
-    """C13-R8: the seek may start too early, never too late"""
+    """C13-R8: the seek may start too early, never too late; C13-R10: no recorded first key, no seek"""
     R8 = 'C13-R8'
     ctx.rule(R8, 'the seek to the start row is only an optimisation on top of the mask, so it must be conservative also when equal keys '
                  'straddle a block boundary (uniqueness of a PRIMARY KEY is not enforced): DiskRowset::start_rowid stops at the first '
-                 'block whose first key is >= the start key (non-strict), i.e. it starts from the last block that begins BELOW the key')
-    b = prog.inlined(START_ROWID)
+                 'block whose first key is >= the start key (non-strict), i.e. it starts from the last block that begins BELOW the key. '
+                 'Decided by what happens when the two are EQUAL, not by how the comparison is spelled: in a loop, the branch taken on '
+                 'equality must not record the block (no read of first_rowid before the next comparison); in an iterator chain, the '
+                 'predicate of take_while / partition_point must answer false on equality (that of position / find: true)')
+    b = prog.body(START_ROWID)
     if not ctx.anchor(R8, START_ROWID, b is not None):
         return
     ctx.functions_analysed.add(b.name)
-    dec = {c.dest['l'] for c in b.calls if (c.fn or '').endswith('PrimitiveFixedWidthEncode::decode')}
-    key = {st['lhs']['l'] for _, st in b.stmts() if st['s'] == 'assign' and any('as:Int32' in pl['p'] for pl in operand_places(st['rv']))}
-    cmps = []
-    for bb, st in b.stmts():
-        rv = st.get('rv', {}) if st['s'] == 'assign' else {}
-        if rv.get('rv') == 'binop' and rv['op'] in ('Lt', 'Le', 'Gt', 'Ge') and rv.get('ty') == 'i32':
-            ops = operand_places(rv)
-            if len(ops) == 2:
-                l_first = bool(dec & origin_locals(b, ops[0]['l'], depth=4))
-                r_first = bool(dec & origin_locals(b, ops[1]['l'], depth=4))
-                l_key = bool(key & origin_locals(b, ops[0]['l'], depth=4))
-                r_key = bool(key & origin_locals(b, ops[1]['l'], depth=4))
-                if l_first and r_key:
-                    cmps.append((bb, rv['op'], 'first?key'))
-                elif l_key and r_first:
-                    cmps.append((bb, {'Lt': 'Gt', 'Le': 'Ge', 'Gt': 'Lt', 'Ge': 'Le'}[rv['op']], 'first?key'))
+    grp = prog.group(b.root)
+    grp = [b] + [g for g in grp if g.name != b.name]
+    key_b = {st['lhs']['l'] for _, st in b.stmts() if st['s'] == 'assign' and any('as:Int32' in pl['p'] for pl in operand_places(st['rv']))}
+
+    def closure_site(g):
+        """(body that builds closure g, local holding it, captured operands)"""
+        for h in grp:
+            for bb, st in h.stmts():
+                rv = st.get('rv', {}) if st['s'] == 'assign' else {}
+                if rv.get('rv') == 'agg' and rv.get('def') == g.name:
+                    return h, st['lhs']['l'], rv.get('ops', [])
+        return None, None, []
+
+    def adaptor_of(h, cl):
+        for c in h.calls:
+            if any(a['k'] != 'const' and cl in origin_locals(h, a['pl']['l'], depth=3) for a in c.args[1:]) and re.search(r'Iterator::\w+$|slice::.*::partition_point$', c.fn or ''):
+                return c
+        return None
+
+    cmps, decs_all, present = [], [], []
+    for g in grp:
+        decs = [c for c in g.calls if (c.fn or '').endswith('PrimitiveFixedWidthEncode::decode')]
+        if not decs:
+            continue
+        decs_all += [(g, c) for c in decs]
+        dec = {c.dest['l'] for c in decs}
+        # the start key: in start_rowid itself the payload of DataValue::Int32; in a closure a captured variable that is fed from it
+        if g is b:
+            key = set(key_b)
+        else:
+            h, cl, ops = closure_site(g)
+            key = set()
+            for k, o in enumerate(ops):
+                if o['k'] != 'const' and h is not None and key_b & origin_locals(h, o['pl']['l'], depth=10) and h is b:
+                    for _, st in g.stmts():
+                        if st['s'] == 'assign' and not st['lhs']['p']:
+                            for pl in operand_places(st['rv']):
+                                if pl['l'] == 1 and any(p_.startswith('f:') and p_[2:].rsplit('::', 1)[-1] == str(k) for p_ in pl['p']):
+                                    key.add(st['lhs']['l'])
+        for bb, st in g.stmts():
+            rv = st.get('rv', {}) if st['s'] == 'assign' else {}
+            if rv.get('rv') == 'binop' and rv['op'] in ('Lt', 'Le', 'Gt', 'Ge') and rv.get('ty') == 'i32':
+                ops2 = operand_places(rv)
+                if len(ops2) != 2:
+                    continue
+                l_first = bool(dec & origin_locals(g, ops2[0]['l'], depth=4))
+                r_first = bool(dec & origin_locals(g, ops2[1]['l'], depth=4))
+                l_key = bool(key & origin_locals(g, ops2[0]['l'], depth=4))
+                r_key = bool(key & origin_locals(g, ops2[1]['l'], depth=4))
+                if not ((l_first and r_key) or (l_key and r_first)):
+                    continue
+                true_on_eq = rv['op'] in ('Le', 'Ge')
+                res = st['lhs']['l']
+                verdict, how = None, ''
+                # (a) the result decides a branch of a loop in g
+                for i2, bl in enumerate(g.blocks):
+                    t = bl['term']
+                    if t['k'] == 'switch' and not bl['cleanup'] and t['discr']['k'] != 'const' and res in origin_locals(g, t['discr']['pl']['l'], depth=3):
+                        neg = any(s2['s'] == 'assign' and s2['lhs']['l'] == t['discr']['pl']['l'] and s2['rv'].get('rv') == 'unop' and s2['rv'].get('op') == 'Not'
+                                  for s2 in bl['stmts'])
+                        val = true_on_eq != neg
+                        zero = [tgt for v, tgt in t['targets'] if v == '0']
+                        eq_succ = t['otherwise'] if val else (zero[0] if zero else None)
+                        records = {bb2 for bb2, s2 in g.stmts() if s2['s'] == 'assign' and any(f.endswith('::first_rowid') for pl in operand_places(s2['rv'])
+                                                                                                 for f in pl_fields(pl))}
+                        if eq_succ is not None and records:
+                            verdict = not (g.reachable_from([eq_succ], avoid={bb}) & records)
+                            how = f'loop in {g.name}: on equality the branch to block {eq_succ} is taken; first_rowid is recorded at {sorted(records)}'
+                # (b) the result is what a closure returns to an iterator adaptor
+                if verdict is None and g is not b and (res in g.ret_locals() or any(
+                        s2['s'] == 'assign' and s2['lhs']['l'] in g.ret_locals() and res in {pl['l'] for pl in operand_places(s2['rv'])} for _, s2 in g.stmts())):
+                    neg = any(s2['s'] == 'assign' and s2['lhs']['l'] in g.ret_locals() and s2['rv'].get('rv') == 'unop' and s2['rv'].get('op') == 'Not'
+                              for _, s2 in g.stmts())
+                    val = true_on_eq != neg
+                    h, cl, _ = closure_site(g)
+                    ad = adaptor_of(h, cl) if h is not None else None
+                    name = (ad.fn or '').rsplit('::', 1)[-1] if ad else None
+                    if name in ('take_while', 'partition_point', 'map_while'):
+                        verdict, how = (not val), f'predicate of {name} answers {val} on equality'
+                    elif name in ('position', 'find', 'any', 'skip_while', 'find_map'):
+                        verdict, how = val if name != 'skip_while' else (not val), f'predicate of {name} answers {val} on equality'
+                    else:
+                        how = f'closure result consumed by {name}: a form this rule does not know'
+                cmps.append((g, bb, verdict, how))
+        # R10: is the key known to be present where it is decoded?
+        def presence_tests(body):
+            tests = []
+            for i2, bl in enumerate(body.blocks):
+                t = bl['term']
+                if t['k'] != 'switch' or bl['cleanup'] or t['discr']['k'] == 'const':
+                    continue
+                src = origin_locals(body, t['discr']['pl']['l'], depth=4)
+                for c in body.calls:
+                    if c.dest['l'] in src and re.search(r'::(is_empty|len)$', c.fn or '') and c.args and c.args[0]['k'] != 'const':
+                        for x in origin_locals(body, c.args[0]['pl']['l'], depth=4):
+                            for _, kind, payload in local_defs(body, x):
+                                if kind == 'assign' and any(f.endswith('::first_key') for pl in operand_places(payload) + ([payload['pl']] if payload.get('rv') == 'ref' else [])
+                                                            for f in pl_fields(pl)):
+                                    tests.append(i2)
+            return tests
+        tests = presence_tests(g)
+        ok = bool(tests) and all(g.dominated_by_any(set(tests), c.bb) for c in decs)
+        why = f'{g.name}: first_key decoded at {[c.bb for c in decs]}; tests of its presence before: {sorted(set(tests))}'
+        if not ok and g is not b:
+            # `.take_while(|i| !i.first_key.is_empty()).take_while(|i| decode(..) < key)`: the test is the predicate of the adaptor upstream
+            h, cl, _ = closure_site(g)
+            ad = adaptor_of(h, cl) if h is not None else None
+            if ad is not None and ad.args and ad.args[0]['k'] != 'const':
+                up = origin_locals(h, ad.args[0]['pl']['l'], depth=6)
+                for c in h.calls:
+                    if c is not ad and c.dest['l'] in up and re.search(r'Iterator::(take_while|filter|map_while)$', c.fn or ''):
+                        for g0 in grp:
+                            h0, cl0, _ = closure_site(g0)
+                            if h0 is h and cl0 is not None and any(a['k'] != 'const' and cl0 in origin_locals(h, a['pl']['l'], depth=3) for a in c.args[1:]):
+                                t0 = [c0 for c0 in g0.calls if re.search(r'::(is_empty|len)$', c0.fn or '')]
+                                reads = any(f.endswith('::first_key') for _, s2 in g0.stmts() for pl in operand_places(s2['rv']) + ([s2['rv']['pl']] if s2['rv'].get('rv') == 'ref' else [])
+                                            for f in pl_fields(pl))
+                                if t0 and reads:
+                                    ok = True
+                                    why += f'; upstream {(c.fn or "").rsplit("::", 1)[-1]} with the presence test in {g0.name}'
+        present.append((g, decs, ok, why))
+
     R10 = 'C13-R10'
     ctx.rule(R10, 'the first key of a block is recorded only under the option record_first_key; without it the index entry carries an empty '
-                  'key, so start_rowid decodes a first key only behind a test that it is there (is_empty / len) - no recorded key, no seek, '
-                  'the mask does the filtering')
-    decs = [c for c in b.calls if (c.fn or '').endswith('PrimitiveFixedWidthEncode::decode')]
-    if ctx.anchor(R10, 'start_rowid: decode of a block\'s first key', decs):
-        tests = []
-        for i, bl in enumerate(b.blocks):
-            t = bl['term']
-            if t['k'] != 'switch' or bl['cleanup'] or t['discr']['k'] == 'const':
-                continue
-            src = origin_locals(b, t['discr']['pl']['l'], depth=4)
-            for c in b.calls:
-                if c.dest['l'] in src and re.search(r'::(is_empty|len)$', c.fn or '') and c.args and c.args[0]['k'] != 'const':
-                    for x in origin_locals(b, c.args[0]['pl']['l'], depth=4):
-                        for _, kind, payload in local_defs(b, x):
-                            if kind == 'assign' and any(f.endswith('::first_key') for pl in operand_places(payload) + ([payload['pl']] if payload.get('rv') == 'ref' else [])
-                                                        for f in pl_fields(pl)):
-                                tests.append(i)
-        ok = bool(tests) and all(b.dominated_by_any(set(tests), c.bb) for c in decs)
-        ctx.ob(R10, 'start_rowid·first-key-present-before-decode', ok,
-               f'first_key decoded at {[c.bb for c in decs]}; tests of its presence before: {sorted(set(tests))}', [site(b, c.bb) for c in decs],
-               what='start_rowid decodes the first key of every block although it is only recorded under record_first_key: with that option '
-                    'off, any key range on the disk engine dies (advance out of bounds) where the in-memory engine answers')
-
+                  'key, so start_rowid decodes a first key only behind a test that it is there (is_empty / len, in the loop or as the predicate '
+                  'of an upstream take_while / filter) - no recorded key, no seek, the mask does the filtering')
+    if ctx.anchor(R10, 'start_rowid: decode of a block\'s first key', decs_all):
+        for g, decs, ok, why in present:
+            ctx.ob(R10, 'start_rowid·first-key-present-before-decode', ok, why, [site(g, c.bb) for c in decs],
+                   what='start_rowid decodes the first key of every block although it is only recorded under record_first_key: with that option '
+                        'off, any key range on the disk engine dies (advance out of bounds) where the in-memory engine answers')
     if ctx.anchor(R8, 'start_rowid: comparison of a block\'s first key with the start key', cmps):
-        for bb, op, _ in cmps:
-            ctx.ob(R8, 'start_rowid·stops-at-first-key>=start', op == 'Ge',
-                   f'block {bb}: the loop leaves on `first_key {"<>"[0] if False else {"Ge": ">=", "Gt": ">", "Le": "<=", "Lt": "<"}[op]} start_key`',
-                   [site(b, bb)],
+        for g, bb, verdict, how in cmps:
+            ctx.ob(R8, 'start_rowid·stops-at-first-key>=start', verdict is True,
+                   f'block {bb} of {g.name}: {how or "the use of the comparison was not recognised"}',
+                   [site(g, bb)],
                    what='start_rowid skips to the last block whose first key is <= the start key: when equal keys straddle a block boundary '
                         'the rows at the end of the previous block are lost (`a >= 27` returns 33 of 34 rows)')
